@@ -136,7 +136,7 @@ private:
   int process_directive(int c);
 
   int get_preprocessor_command(int c, std::string &command);
-  int get_preprocessor_args(int c, std::string &args);
+  int get_preprocessor_args(int c, std::string &args, bool header_name = false);
 
   void handle_define_directive(const std::string &args, const YYLTYPE &loc);
   void handle_undef_directive(const std::string &args, const YYLTYPE &loc);
